@@ -102,3 +102,18 @@ Theorem C20_lax_old_probe_refuted :
   /\ detect strict_old false true [KCommon; KNewOnly] = Some SNew.
 Proof. exact lax_old_probe_refuted. Qed.
 Print Assumptions C20_lax_old_probe_refuted.
+
+(** Whatever the selection of outputs, a new-style run hands the rest of the configuration (compatibility flags, import
+    mapping, ...) to the generator as the file gave it; clearing the chi first-to-last flag when no chi server is generated
+    is refuted (std-http reads that flag).  Tied to the tool by cases_C20_resolve_flags (--output-config). *)
+Theorem C20_resolution_keeps_the_rest : forall (rest : Type) (c c' : @config rest), resolve_new c = Some c' -> c_rest c' = c_rest c.
+Proof. intros rest c c'. apply resolve_keeps_the_rest. Qed.
+Print Assumptions C20_resolution_keeps_the_rest.
+
+Theorem C20_clearing_the_chi_flag_refuted :
+  let g := {| g_iris := false; g_chi := false; g_fiber := false; g_echo := false; g_gin := false; g_gorilla := false;
+              g_stdhttp := true; g_strict := false; g_client := false; g_models := true; g_spec := false |} in
+  let c := {| c_package := "api"%string; c_gen := g; c_out := {| skip_fmt := false; skip_prune := false |}; c_initialism := false; c_rest := (true, false) |} in
+  option_map c_rest (resolve_new c) = Some (true, false) /\ option_map c_rest (resolve_clearing_chi_flag c) = Some (false, false).
+Proof. exact clearing_the_chi_flag_refuted. Qed.
+Print Assumptions C20_clearing_the_chi_flag_refuted.
